@@ -4,8 +4,7 @@ line.  `k`/`p` arguments are Rust `u32`; they are modelled as `Nat` with the bou
 of the theorems where it matters (`k < 2^32`).
 -/
 import SuccinctlyVerif.Model.Prim
-import SuccinctlyVerif.Generated.Kernels
-import SuccinctlyVerif.Generated.Tables
+import SuccinctlyVerif.Generated.Common
 namespace SV
 
 /-! ### select_in_word — CTZ loop (`src/util/broadword.rs select_in_word_ctz`) -/
